@@ -1359,9 +1359,10 @@ def run(tier, seed, replay=None):
                 # runtime.py drops a leading meta element (elements = elements[1:]): the flow that
                 # actually runs is the tail, its offsets must stay inside as well
                 tail = obs[1:]
-                bad = v1_oracle(tail)
+                bad_tail = v1_oracle(tail)
                 v1_meta_tails += 1
-                if bad:
+                if bad_tail and not bad:      # a defect of the meta removal only (otherwise already reported above)
+                    bad = bad_tail
                     out.findings.append(C.Finding(v1_sig(bad) + ":after-meta-removal", f"offset leaves the flow once the meta element is dropped: {bad[0]} ({origin})",
                                                   {"kind": "v1-items", "items": items, "origin": origin, "problems": bad[:5], "elements": tail}))
                 off_terms.append(v1_coq_elems(tail))
